@@ -1,8 +1,19 @@
 /- Judge for engine `crash` (C01, C02, C08): `case ==> observation` ↦ `ok` | `bad …`. -/
 import AxVerif.Model.Recovery
 import AxVerif.Model.Journal
+import AxVerif.Driver.Pager
 namespace AxVerif.Drivers
 open AxVerif AxVerif.Durable AxVerif.Recovery
+
+/-- Page audit of a recovered image: the pager engine's token string (spaces written `~`), judged by C11's proved checker
+    (`FileDump.checkWith`: every page owned exactly once by a tree, an overflow chain or the free list) and C10's order checker,
+    on an empty state. -/
+def pageAuditProblem (pg : String) : Option String :=
+  if pg == "-" then none
+  else
+    match AxVerif.PagerDriver.stepObs {} 0 {} ("r=ok " ++ pg.replace "~" " ") with
+    | .ok _ => none
+    | .error e => some e
 
 structure Group where
   k : String
@@ -15,6 +26,7 @@ structure Group where
   again : String
   probe : String
   nest : String
+  pg : String
 
 def field (ws : List String) (name : String) : Option String :=
   match ws.find? (fun w => w.startsWith (name ++ "=")) with
@@ -31,7 +43,8 @@ def parseGroup (s : String) : Option Group :=
     match parseNatList a with
     | some acked => some { k := k, acked := acked, infl := i.toNat?, phDone := pd, phAll := pa,
                            openR := o, tables := t, again := ag, probe := p,
-                           nest := (field ws "nest").getD "-" }
+                           nest := (field ws "nest").getD "-",
+                           pg := (field ws "pg").getD "-" }
     | none => none
   | _, _, _, _, _, _, _ => none
 
@@ -96,7 +109,8 @@ def judgeGroup0 (crit : String) (tornTol : Bool) (ops : List Op) (ok : List Bool
         let okB := match b with | some dB => dB.extra.isEmpty && subList dB.lost dA.lost | none => false
         if dA.extra.isEmpty || okB then none else some s!"k={g.k} extra={dA.extra}"
       | "crash08" =>
-        if g.again != "same" then some s!"k={g.k} again={g.again}"
+        if (pageAuditProblem g.pg).isSome then some s!"k={g.k} page-audit={(pageAuditProblem g.pg).getD ""}"
+        else if g.again != "same" then some s!"k={g.k} again={g.again}"
         else if g.probe != "ok" then some s!"k={g.k} probe={g.probe}"
         else nestProblem
       | _ => some "bad-criterion"
@@ -279,7 +293,11 @@ def crash (flags : List String) (line : String) : String :=
             let sortedTables := (tables.toArray.qsort (· < ·)).toList
             let expectLive := render sortedTables (expectedAfter ops ok ops.length)
             let tol : Tol := { flags := flags }
-            let liveProblem : List String :=
+            let livePgProblem : List String :=
+              match pageAuditProblem ((field fw "livepg").getD "-") with
+              | some e => [s!"live page-audit={e}"]
+              | none => []
+            let liveProblem : List String := livePgProblem ++
               if live == expectLive ∨ (live == "-" ∧ expectLive == "") then []
               else if tol.has "rolledBackUpdDel" ∧ rolledBackUpdDelUpTo ops ops.length then []
               else [s!"live={live} expected={expectLive}"]
